@@ -215,9 +215,11 @@ def run_cs(case):
             nin, nout = rng.randint(1, 4), rng.randint(1, 4)
             csdt = rng.choice(CS_CODES)
             pdt = rng.choice(NUM_CODES)
-            w = rng.choice(["scalar", "vec", "vec", "batch", "batch", "batch3", "empty", "wrongwidth", "transposed"])
+            w = rng.choice(["scalar", "vec", "vec", "batch", "batch", "batch3", "batch3", "batch4", "empty", "wrongwidth",
+                            "transposed"])
             shape = {"scalar": (), "vec": (nin,), "batch": (rng.randint(1, 4), nin),
-                     "batch3": (rng.randint(1, 3), rng.randint(1, 3), nin), "empty": (0, nin),
+                     "batch3": (rng.randint(1, 3), rng.randint(2, 3), nin),
+                     "batch4": (rng.randint(2, 3), rng.randint(1, 2), rng.randint(2, 3), nin), "empty": (0, nin),
                      "wrongwidth": (rng.randint(1, 3), nin + rng.choice([-1, 1])),
                      "transposed": (nin, rng.randint(1, 3))}[w]
             shape = tuple(max(0, v) for v in shape)
@@ -228,6 +230,16 @@ def run_cs(case):
             x = np.zeros(shape, dtype=DT_NP[pdt] if pdt != "O" else object)
             if x.size:
                 x[...] = np.array([rng.choice([0, 1, 2, 3]) for _ in range(x.size)]).reshape(shape)
+            # memory layout of the batch (a meshgrid transposed, an index array from np.indices(...).T, a slice):
+            # the value at batch position (i, j, ..) is the map at the point stored there, whatever the strides
+            lay = rng.choice(["C", "C", "F", "F", "strided"]) if x.ndim >= 2 and x.size else "C"
+            if lay == "F":
+                x = np.asfortranarray(x)
+            elif lay == "strided":
+                big = np.zeros(tuple(2 * d for d in x.shape), dtype=x.dtype)
+                sl = tuple(slice(0, 2 * d, 2) for d in x.shape)
+                big[sl] = x
+                x = big[sl]
             k, v = _res(lambda: A(x))
             if k == "ok" and x.ndim >= 2 and x.size and x.shape[-1] == nin:
                 # a batch of points is evaluated point by point (exact small integers)
@@ -245,7 +257,7 @@ def run_cs(case):
             add(f"cs shape {nin} {nout} {csdt} {pdt} {len(shape)} " + " ".join(str(s) for s in shape), obs.rstrip(),
                 "cs-shape:" + w)
             lines[-1] = lines[-1].rstrip()
-            if k == "ok" and w in ("batch", "batch3", "vec", "empty"):
+            if k == "ok" and w in ("batch", "batch3", "batch4", "vec", "empty"):
                 # the same through a general CoordinateMap and through a nested list
                 kg, G = _res(lambda: cmm._as_coordinate_map(A))     # (sympy refuses the singular object matrix)
                 k2, v2 = _res(lambda: G(x)) if kg == "ok" else ("ok", v)
